@@ -1056,6 +1056,8 @@ func clStartFacts(root *pkgSrc, fs []clFunc) (bounded, selStream bool) {
 			if !ok {
 				continue
 			}
+			watches := false
+			overChans := map[string]bool{}
 			ast.Inspect(fl.Body, func(n ast.Node) bool {
 				cc, ok := n.(*ast.CommClause)
 				if !ok || cc.Comm == nil {
@@ -1064,12 +1066,40 @@ func clStartFacts(root *pkgSrc, fs []clFunc) (bounded, selStream bool) {
 				if e := commExpr(cc); e != nil && isDoneOf(e, func(v string) bool { return ctxs[v] }) {
 					for _, b := range cc.Body {
 						if clContains(root, b, cancelOf+"()") {
-							bounded = true
+							watches = true
+						}
+					}
+				} else if e != nil { // the case that ends the watcher: `<-X` for a channel X
+					if u, ok := e.(*ast.UnaryExpr); ok && u.Op == token.ARROW {
+						if id, ok := u.X.(*ast.Ident); ok {
+							overChans[id.Name] = true
 						}
 					}
 				}
 				return true
 			})
+			// the watcher lives for the whole of the function: the channel that ends it is closed by a top-level `defer
+			// close(X)` and by nothing else (a watcher that is ended once the response headers are in leaves what follows —
+			// reading the body of a non-200 answer — unbounded)
+			if watches {
+				for x := range overChans {
+					deferred, plain := false, false
+					for _, st2 := range fd.Body.List {
+						if ds, ok := st2.(*ast.DeferStmt); ok && clSquash(root, ds.Call) == "close("+x+")" {
+							deferred = true
+						}
+					}
+					ast.Inspect(fd.Body, func(n ast.Node) bool {
+						if es, ok := n.(*ast.ExprStmt); ok && clSquash(root, es.X) == "close("+x+")" {
+							plain = true
+						}
+						return true
+					})
+					if deferred && !plain {
+						bounded = true
+					}
+				}
+			}
 		}
 	}
 	// the selects of the function itself (not of its goroutines) that wait on the caller's context
@@ -1346,6 +1376,39 @@ func clLockFree(root *pkgSrc, fs []clFunc) []string {
 	return out
 }
 
+// srvGetExitDeadlineFirst: on the exit path of the Streamable server's handleGet (the top-level statements after the wait
+// `<-connCtx.Done()`), the write deadline is set (a call of SetWriteDeadline) before the stream's write lock is taken
+// (`….writeLock.Lock()`): the deadline is what releases a writer that is blocked on a peer which no longer reads — and
+// that writer holds the lock.
+func srvGetExitDeadlineFirst(root *pkgSrc) bool {
+	f := root.files["streamable_server.go"]
+	if f == nil {
+		return false
+	}
+	for _, d := range f.Decls {
+		fd, ok := d.(*ast.FuncDecl)
+		if !ok || fd.Body == nil || fd.Name.Name != "handleGet" {
+			continue
+		}
+		waitAt, deadlineAt, lockAt := -1, -1, -1
+		for i, st := range fd.Body.List {
+			txt := clSquash(root, st)
+			switch {
+			case waitAt < 0 && strings.HasPrefix(txt, "<-") && strings.HasSuffix(txt, ".Done()"):
+				waitAt = i
+			case waitAt >= 0 && deadlineAt < 0 && strings.Contains(txt, "SetWriteDeadline(") && !strings.Contains(txt, "writeLock"):
+				if _, isBlock := st.(*ast.BlockStmt); !isBlock {
+					deadlineAt = i
+				}
+			case waitAt >= 0 && lockAt < 0 && strings.HasSuffix(txt, ".writeLock.Lock()"):
+				lockAt = i
+			}
+		}
+		return waitAt >= 0 && deadlineAt > waitAt && lockAt > deadlineAt
+	}
+	return false
+}
+
 func clLeanClient(c string) string { return "." + c }
 
 func clLeanHow(h string) string {
@@ -1429,8 +1492,8 @@ func clGen(root *pkgSrc) {
 	for _, c := range clCloseUnguarded(root) {
 		unguarded = append(unguarded, clLeanClient(c))
 	}
-	fmt.Fprintf(&b, "def clTables : Tables :=\n  { inserts := clInserts, bodies := clBodies, selects := clSelects, chanClosers := clChanClosers, answerBound := [%s], lockFree := [%s], closeUnguarded := [%s], waitSites := clWaitSites,\n    readerCloses := %s, watcherCancels := %s, startGuarded := %s, backoffCtx := %s, startBounded := %s, startSelStream := %s }\n",
-		strings.Join(bound, ", "), strings.Join(lockFree, ", "), strings.Join(unguarded, ", "), leanBool(clReaderCloses(root, fs)), leanBool(clWatcherCancels(root, fs)), leanBool(clStartGuarded(root, fs)), leanBool(clBackoffCtx()), leanBool(startBounded), leanBool(startSelStream))
+	fmt.Fprintf(&b, "def clTables : Tables :=\n  { inserts := clInserts, bodies := clBodies, selects := clSelects, chanClosers := clChanClosers, answerBound := [%s], lockFree := [%s], closeUnguarded := [%s], waitSites := clWaitSites,\n    readerCloses := %s, watcherCancels := %s, startGuarded := %s, getExitDeadlineFirst := %s, backoffCtx := %s, startBounded := %s, startSelStream := %s }\n",
+		strings.Join(bound, ", "), strings.Join(lockFree, ", "), strings.Join(unguarded, ", "), leanBool(clReaderCloses(root, fs)), leanBool(clWatcherCancels(root, fs)), leanBool(clStartGuarded(root, fs)), leanBool(srvGetExitDeadlineFirst(root)), leanBool(clBackoffCtx()), leanBool(startBounded), leanBool(startSelStream))
 	b.WriteString("end Mcp.Gen.CallFacts\n")
 	writeIfChanged("CallFacts.lean", b.String())
 }
